@@ -5,6 +5,7 @@ import (
 	"time"
 
 	"github.com/jcmturner/gokrb5/v8/config"
+	"github.com/jcmturner/gokrb5/v8/crypto"
 	"github.com/jcmturner/gokrb5/v8/keytab"
 	"github.com/jcmturner/gokrb5/v8/messages"
 	"github.com/jcmturner/gokrb5/v8/types"
@@ -122,6 +123,56 @@ func VH_C10_SessionRefresh() {
 	} else {
 		zzverif.Reach("refresh-failed")
 	}
+}
+
+// VH_C10_PreAuthTimestamp: the pre-authentication the client computes (PA-ENC-TIMESTAMP, RFC 4120 5.2.7.2): one
+// PA-DATA of type 2 whose value is an EncryptedData under the client's own long-term key - derived from the
+// password for the pre-auth enctype with the default salt, or taken from the keytab - with key usage 1, of a
+// PA-ENC-TS-ENC carrying the current time.  ASN.1 and encryption are codec pairs.
+func VH_C10_PreAuthTimestamp() {
+	et := int32(zzverif.Param("etype"))
+	cfg := vhConfig()
+	cfg.LibDefaults.PreferredPreauthTypes = []int{int(et)}
+	var cl *Client
+	var want types.EncryptionKey
+	if zzverif.Param("creds") == 0 {
+		pw := zzverif.String(2)
+		cl = NewWithPassword("u", "R", pw, cfg, DisablePAFXFAST(true), AssumePreAuthentication(true))
+		want, _, _ = crypto.GetKeyFromPassword(pw, cl.Credentials.CName(), "R", et, types.PADataSequence{})
+	} else {
+		kt := keytab.New()
+		want = types.EncryptionKey{KeyType: et, KeyValue: zzverif.Bytes(crypto.VHKeyLen(int(et)))}
+		kt.VHAddEntry("R", []string{"u"}, et, 3, want.KeyValue, time.Unix(1500000000, 0))
+		cl = NewWithKeytab("u", "R", kt, cfg, DisablePAFXFAST(true), AssumePreAuthentication(true))
+	}
+	req, err := messages.NewASReqForTGT("R", cl.Config, cl.Credentials.CName())
+	zzverif.Assert("request-built", err == nil)
+	// a stale pre-authentication value already in the request is replaced, not kept
+	req.PAData = append(req.PAData, types.PAData{PADataType: 2, PADataValue: []byte{1}})
+	err = setPAData(cl, nil, &req)
+	now := zzverif.Now()
+	zzverif.Assert("pre-authentication-computed", err == nil)
+	n, at := 0, -1
+	for i, pa := range req.PAData {
+		if pa.PADataType == 2 {
+			n++
+			at = i
+		}
+	}
+	zzverif.Assert("exactly-one-pa-enc-timestamp", n == 1 && len(req.PAData) == 1)
+	if n != 1 {
+		return
+	}
+	var ed types.EncryptedData
+	zzverif.Assert("value-is-an-encrypted-data", ed.Unmarshal(req.PAData[at].PADataValue) == nil)
+	zzverif.Assert("encrypted-for-the-preauth-etype", ed.EType == et)
+	pt, derr := crypto.DecryptEncPart(ed, want, 1)
+	zzverif.Assert("under-the-clients-long-term-key-with-usage-1", derr == nil)
+	var ts types.PAEncTSEnc
+	zzverif.Assert("plaintext-is-a-pa-enc-ts-enc", ts.Unmarshal(pt) == nil)
+	// (GeneralizedTime has a granularity of one second: the microseconds travel in pausec)
+	zzverif.Assert("timestamp-is-now", now.Sub(ts.PATimestamp) >= 0 && now.Sub(ts.PATimestamp) < time.Second)
+	zzverif.Reach("checked")
 }
 
 // ---- C10: referral chains are followed only up to a fixed bound ---------------------------------------------
